@@ -422,6 +422,24 @@ def r5(chk, prog):
         src = v
         while src.kind == "reg" and src.v in f.defs and f.defs[src.v].op in ("bitcast",):
             src = f.defs[src.v].ops[0]
+        # a "value unchanged, nothing to do" shortcut decided by a floating-point (or integer) equality test skips the store for
+        # values that compare equal without being the same value: +0.0 and -0.0
+        skip = None
+        for c in f.instrs():
+            if c.op == "fcmp" and c.x.get("pred") in ("oeq", "ueq", "one", "une") and any(o.kind == "reg" and o.v == pname for o in c.ops):
+                other = [o for o in c.ops if not (o.kind == "reg" and o.v == pname)]
+                if other and other[0].kind == "reg" and f.defs.get(other[0].v) is not None and f.defs[other[0].v].op == "load" and \
+                        P.path(f.defs[other[0].v].ops[0]).replace("->", ".").split(".")[-1].split("[")[0] == field:
+                    from ..heapuse import reach_avoiding
+                    w = reach_avoiding(f, c, lambda x: x.op == "ret", lambda x: x is val_store)
+                    if w is not None:
+                        skip = c
+        if skip is not None:
+            n += 1
+            chk.refuted(rid, name, "store skipped on equality", skip.locstr(),
+                        "the setter compares the stored value with the argument (%s) and can return without storing when they compare "
+                        "equal: +0.0 and -0.0 compare equal, so setting -0.0 on a node holding 0.0 (or the reverse) reports success and "
+                        "leaves the other zero in place" % skip.x.get("pred"))
         if src.kind == "reg" and src.v == pname:
             chk.proven(rid, name, "store " + field, val_store.locstr(), "argument stored unmodified")
         else:
